@@ -19,6 +19,7 @@ from vt import explore
 from vt.connlib import quiet_driver_logs
 from vt.world.vworld import World, VServer, HostSpec, VConnection, VClock
 from vt.world import wire
+from vt.vthreading import WouldBlock
 from vt.reqworld import ScriptedRetryPolicy, Observer
 
 from cassandra.cluster import ExecutionProfile, EXEC_PROFILE_DEFAULT
@@ -172,7 +173,6 @@ class PoolWorld(object):
             self.base_received = len(self.server.received)
             self.reqs = []               # (future, observer)
             self.exec_raised = []
-            self.orphaned = set()        # (vid, stream) given up by the client, still unanswered
             self.orphan_hit = {}         # vid -> True once `orphaned_threshold` streams were orphaned at the same time
             self.req_after_hit = set()   # vids on which a request was issued after the threshold was hit
             self.problems = []           # (clause, site, text) recorded by the hooks
@@ -182,7 +182,8 @@ class PoolWorld(object):
             self.n_defunct = 0
             self.n_fail = 0
             self.n_late = 0
-            self.in_defunct = None
+            self.timing_out = None
+            self.stuck = None
             self.w.close_hooks.append(self._on_close)
         except BaseException:
             self.close()
@@ -210,9 +211,25 @@ class PoolWorld(object):
         return sorted((p for p in self.server.pending if not p.conn.is_closed and not p.conn.is_defunct),
                       key=lambda p: p.seq)
 
+    def given_up(self, p):
+        """the application has been given an outcome for the request behind pending entry p (it timed
+        out on the client side, or failed otherwise): nobody is waiting for this answer any more"""
+        q = p.req.get('query', '')
+        if not q.startswith('SELECT q'):
+            return False
+        tag = int(q[8:])
+        if tag == self.timing_out:
+            return True              # its client-side timeout is expiring right now
+        f, o = self.reqs[tag]
+        return o is not None and o.n > 0
+
+    @property
+    def orphaned(self):
+        return set((p.conn.vid, p.stream) for p in self.server.pending if self.given_up(p))
+
     def live_on(self, conn):
         """requests outstanding on the wire of `conn` that the client is still waiting for"""
-        return [p for p in self.server.pending if p.conn is conn and (conn.vid, p.stream) not in self.orphaned]
+        return [p for p in self.server.pending if p.conn is conn and not self.given_up(p)]
 
     def wire_of(self, tag):
         q = 'SELECT q%d' % tag
@@ -268,6 +285,14 @@ class PoolWorld(object):
             self.trash_seen |= set(c.vid for c in self.pool._trash)
         if self.pool.is_shutdown and self.nconns_at_shutdown is None:
             self.nconns_at_shutdown = len(self.w.conns)
+        thr = self.p.get('orphaned_threshold')
+        if thr is not None:
+            n = {}
+            for vid, _ in self.orphaned:
+                n[vid] = n.get(vid, 0) + 1
+            for vid, k in n.items():
+                if k >= thr:
+                    self.orphan_hit[vid] = True
 
     # ------------------------------------------------------------------ events
     def issue(self):
@@ -297,9 +322,7 @@ class PoolWorld(object):
         self.respond_pending(self.open_pending()[idx])
 
     def respond_pending(self, p):
-        key = (p.conn.vid, p.stream)
-        if key in self.orphaned:
-            self.orphaned.discard(key)
+        if self.given_up(p):
             self.n_late += 1
         self.server.respond(p, wire.OP_RESULT, wire.result_void(), deliver=True)
 
@@ -313,21 +336,22 @@ class PoolWorld(object):
         return t
 
     def timeout(self, k):
+        """The client-side timeout of request k expires now (its own, shorter, timeout: the clock is not
+        moved to the common deadline, so no other request times out as a side effect)."""
         t = self.timer_of(k)
-        ws = self.wire_of(k)
-        if ws is not None and any(p.conn.vid == ws[0] and p.stream == ws[1] for p in self.server.pending):
-            self.orphaned.add(ws)
-            thr = self.p.get('orphaned_threshold')
-            if thr is not None and sum(1 for v, _ in self.orphaned if v == ws[0]) >= thr:
-                self.orphan_hit[ws[0]] = True
-        self.w.fire_timer(t)
+        t.fired = True
+        self.w.timers.remove(t)
+        self.timing_out = k
+        try:
+            t.finish(t.end)
+        finally:
+            self.timing_out = None
 
     def defunct(self, vid):
         conn = self.w.conns[vid]
         for q in list(self.server.pending):
             if q.conn is conn:
                 self.server.pending.remove(q)
-                self.orphaned.discard((vid, q.stream))
         self.n_defunct += 1
         conn.defunct(OSError(104, 'Connection reset by peer'))
 
@@ -436,7 +460,7 @@ class PoolWorld(object):
                 elif c in cur:
                     role = 'installed-after-shutdown'
                 else:
-                    role = 'other'
+                    role = 'untracked'
                 out.append(('leak-after-shutdown', '%s/%s' % (cls, role),
                             'pool is shut down and nothing is pending any more, connection #%d (%s) is still open '
                             '(in_flight %d, orphans %r)' % (c.vid, role, c.in_flight, sorted(c.orphaned_request_ids))))
@@ -480,7 +504,7 @@ class PoolWorld(object):
         return (tuple(conns), pl, tuple(futs), tuple(tasks), pend, tuple(sorted(self.orphaned)),
                 tuple(sorted(self.orphan_hit)), tuple(sorted(self.req_after_hit)), self.host.is_up,
                 self.session._pools.get(self.host) is pool, self.n_defunct, self.n_fail,
-                self.session.is_shutdown, len(self.w.sched_tasks))
+                self.session.is_shutdown, len(self.w.sched_tasks), bool(self.stuck))
 
 
 class PoolHarness(explore.Harness):
@@ -506,6 +530,8 @@ class PoolHarness(explore.Harness):
     def events(self, st):
         p = self.params
         evs = []
+        if st.stuck:
+            return evs
         if len(st.reqs) < p.get('n_req', 3) and not st.session.is_shutdown:
             evs.append((('req',), 0))
         for i in range(len(st.open_pending())):
@@ -537,7 +563,7 @@ class PoolHarness(explore.Harness):
         data = {'params': p, 'history': hist}
         report(p, part, data, st.invariant_findings())
         report(p, part, data, st.replacement_findings())
-        if st.pool.is_shutdown:
+        if st.pool.is_shutdown and not st.stuck:
             report(p, part, data, st.borrow_after_shutdown_findings())
             for order in p.get('drain_orders', ('resp',)):
                 # post-condition: replay the history into a second world and let everything finish there
@@ -560,21 +586,27 @@ class PoolHarness(explore.Harness):
 def apply_event(st, ev):
     kind = ev[0]
     st.w.clock.new_event()
-    if kind == 'req':
-        st.issue()
-    elif kind == 'resp':
-        st.respond(ev[1])
-    elif kind == 'timeout':
-        st.timeout(ev[1])
-    elif kind == 'defunct':
-        st.defunct(ev[1])
-    elif kind == 'task':
-        st.run_task(ev[1], ev[2])
-    elif kind == 'shutdown':
-        st.pool.shutdown()
-    else:
-        raise explore.HarnessError('unknown event %r' % (ev,))
-    st.w.deliver_outbox()
+    try:
+        if kind == 'req':
+            st.issue()
+        elif kind == 'resp':
+            st.respond(ev[1])
+        elif kind == 'timeout':
+            st.timeout(ev[1])
+        elif kind == 'defunct':
+            st.defunct(ev[1])
+        elif kind == 'task':
+            st.run_task(ev[1], ev[2])
+        elif kind == 'shutdown':
+            st.pool.shutdown()
+        else:
+            raise explore.HarnessError('unknown event %r' % (ev,))
+        st.w.deliver_outbox()
+    except WouldBlock as e:
+        # the handler waits, without a timeout, for something only it could provide (e.g. it takes a
+        # non-reentrant lock it already holds): on real threads this thread hangs for ever
+        st.stuck = '%s during %r' % (e, ev)
+        st.problems.append(('deadlock', type(st.pool).__name__, 'a handler blocks for ever: %s' % st.stuck))
     st.note_state()
 
 
@@ -642,7 +674,7 @@ def sched_run(params, prefix, part):
         def reactor_actions():
             acts = []
             for pnd in st.open_pending():
-                if (pnd.conn.vid, pnd.stream) in st.orphaned:
+                if st.given_up(pnd):
                     continue           # late answers to given-up requests come at the end
                 tag = int(pnd.req['query'].rsplit('q', 1)[1])
                 if tag in orphan_tags:
